@@ -454,6 +454,56 @@ where
                 h.expect(!v.is_ok(), "C04.missing_message", "proof_verify accepted fewer disclosed messages than indexes", &[h.last()]);
             }
         }
+        // Fiat-Shamir-consistent proofs with no signature of this issuer behind them: proof_gen does not
+        // check the signature it is given, so everything below passes the challenge comparison and is
+        // refused by the pairing equation alone
+        {
+            let (sk3, pk3) = rand_keypair::<CS>(h);
+            let other_msgs = distinct_msgs(h, l);
+            let mut unsigned: Vec<(&str, Vec<u8>)> = Vec::new();
+            if let Some(s3) = sign::<CS>(h, &sk3, &pk3, hdr.as_deref(), Some(&msgs)).ok() {
+                unsigned.push(("other_key", s3.to_bytes().to_vec()));
+            }
+            if let Some(s4) = sign::<CS>(h, &sk, &pk, hdr.as_deref(), Some(&other_msgs)).ok() {
+                unsigned.push(("other_messages", s4.to_bytes().to_vec()));
+            }
+            let mut h9 = hdr.clone().unwrap_or_default();
+            h9.push(9);
+            if let Some(s5) = sign::<CS>(h, &sk, &pk, Some(&h9), Some(&msgs)).ok() {
+                unsigned.push(("other_header", s5.to_bytes().to_vec()));
+            }
+            // the genuine signature with e + 1, and with A replaced by another valid point
+            let mut s6 = s.to_vec();
+            let mut arr = [0u8; 32];
+            arr.copy_from_slice(&s6[48..80]);
+            let e1 = Scalar::from_be_bytes(&arr).unwrap() + Scalar::ONE;
+            s6[48..80].copy_from_slice(&e1.to_be_bytes());
+            unsigned.push(("e_plus_1", s6));
+            if let Some((_, other)) = unsigned.first().cloned() {
+                let mut s7 = s.to_vec();
+                s7[..48].copy_from_slice(&other[..48]);
+                unsigned.push(("foreign_A", s7));
+            }
+            for (nm, sg) in unsigned {
+                let tape = rand_tape(h, 5 + u);
+                let (p, _) = proofgen::<CS>(h, &pk, &sg, hdr.as_deref(), ph.as_deref(), Some(&msgs), Some(&d), tape);
+                let gid = h.last();
+                h.stat(&format!("C04.unsigned.{}", nm));
+                if let Some(p) = p.ok() {
+                    let v = proofverify::<CS>(h, &pk, &p, hdr.as_deref(), ph.as_deref(), Some(&dm), Some(&d));
+                    h.expect(!v.is_ok(), "C04.unsigned", &format!("a challenge-consistent proof made without a signature of the issuer ({}) was accepted", nm), &[gid, h.last()]);
+                    let v = blindproofverify::<CS>(h, &pk, &p, hdr.as_deref(), ph.as_deref(), Some(l), Some(&dm), None, Some(&d), None);
+                    h.expect(!v.is_ok(), "C04.unsigned_blind_verify", &format!("a challenge-consistent proof made without a signature of the issuer ({}) was accepted by blind_proof_verify", nm), &[gid, h.last()]);
+                }
+                let tape = rand_tape(h, 5 + u);
+                let (p, _) = blindproofgen::<CS>(h, &pk, &sg, hdr.as_deref(), ph.as_deref(), Some(&msgs), None, Some(&d), None, None, tape);
+                let gid = h.last();
+                if let Some(p) = p.ok() {
+                    let v = blindproofverify::<CS>(h, &pk, &p, hdr.as_deref(), ph.as_deref(), Some(l), Some(&dm), None, Some(&d), None);
+                    h.expect(!v.is_ok(), "C04.unsigned_blind", &format!("a challenge-consistent blind proof made without a signature of the issuer ({}) was accepted", nm), &[gid, h.last()]);
+                }
+            }
+        }
         let mut h1 = hdr.clone().unwrap_or_default();
         h1.push(7);
         expect_reject::<CS>(h, "hdr", &pk, &pb, Some(&h1), ph.as_deref(), &dm, &d);
